@@ -1196,11 +1196,16 @@ def make_layer(rnd, label, top, opts=None):
     if label == "affine":
         if isf(sk):
             A = [[Fr(int(i == j)) for j in range(N)] for i in range(N)]
-            for _ in range(rnd.randrange(0, 3)):                        # unimodular part: shears and swaps
+            # shape of the linear part: anything / lower triangular / upper triangular (a "fast path" for special shapes
+            # must agree with the general product): triangular shapes only use shears on one side of the diagonal
+            shape = rnd.choice(["any", "any", "lower", "upper"]) if N > 1 else "any"
+            for _ in range(rnd.randrange(0, 3) if shape == "any" else rnd.randrange(1, 4)):   # unimodular part: shears and swaps
                 i, j = rnd.randrange(N), rnd.randrange(N)
                 if i == j:
                     continue
-                if rnd.random() < 0.5:
+                if shape != "any":
+                    i, j = (max(i, j), min(i, j)) if shape == "lower" else (min(i, j), max(i, j))
+                if shape == "any" and rnd.random() < 0.5:
                     A[i], A[j] = A[j], A[i]
                 else:
                     s = rnd.choice([1, -1])
